@@ -13,8 +13,8 @@ def strip_clk(o):
 
 def run(rep, tier, rng):
     n = 400 if tier == "quick" else 20000
-    pr = base.proof_and_report(rep, "C06")
     common.prepare()
+    pr = base.proof_and_report(rep, "C06")
     r = rng.fork("c06")
     table = gen_ast.OpsTable()
     found = False
@@ -58,6 +58,11 @@ def run(rep, tier, rng):
         # loop entry
         dec.append("1000 | | | | | begin push.7 push.%d while.true push.0 end end" % c)
         exp.append("OK 7" if c in (0, 1) else "ERR NotBinary %d" % c)
+        # loop entry with a zero (and with nothing) below the condition
+        dec.append("1000 | | | | | begin push.0 push.%d while.true push.0 end end" % c)
+        exp.append("OK 0" if c in (0, 1) else "ERR NotBinary %d" % c)
+        dec.append("1000 | | | | | begin push.%d while.true push.0 end end" % c)
+        exp.append("OK 0" if c in (0, 1) else "ERR NotBinary %d" % c)
         # after an iteration
         dec.append("1000 | | | | | begin push.9 push.1 while.true push.%d end end" % c)
         exp.append("OK 9" if c == 0 else "ERR CycleLimit 1000" if c == 1 else "ERR NotBinary %d" % c)
